@@ -675,7 +675,12 @@ func (e *evalEnv) selectField(v Value, name string, at ast.Node) Value {
 				off, _ := fieldOffset(pt.Elem(), i)
 				pi.Off += off
 				fp := Value{T: types.NewPointer(st.Field(i).Type()), L: v.L, P: &pi}
-				return x.Load(scratch(e.st), fp, st.Field(i).Type())
+				lv := x.Load(scratch(e.st), fp, st.Field(i).Type())
+				// the loaded value is a well-formed Go value (int range, slice header): keep that fact
+				if wf := x.wf(lv, e.st.Alloc); !wf.Bound {
+					e.st.PC = x.C.And(e.st.PC, wf)
+				}
+				return lv
 			}
 		}
 		e.fail(at, "no field %s in %s", name, pt.Elem())
@@ -779,7 +784,7 @@ func (e *evalEnv) evalCall(n *ast.CallExpr) Value {
 				a, b := e.coerce(e.eval(n.Args[1]), e.eval(n.Args[2]))
 				a, b = e.asInt(a), e.asInt(b)
 				return x.MergeValues(cond, a, b)
-			case "forall", "exists":
+			case "forall", "exists", "forallpair":
 				// forall(i, lo, hi, body) over int i in [lo, hi)
 				// forall(i T, body) over all values of integer type T
 				return boolV(e.quant(id.Name, n))
@@ -993,6 +998,26 @@ func (e *evalEnv) methodOf(t types.Type, name string) *ssa.Function {
 
 func (e *evalEnv) quant(kind string, n *ast.CallExpr) *Term {
 	c := e.x.C
+	if kind == "forallpair" {
+		// forallpair(p, q, lo, hi, body, patP, patQ): both variables range over [lo, hi); one
+		// multi-pattern {patP, patQ} so the solver instantiates it for every pair of such terms.
+		if len(n.Args) != 7 {
+			e.fail(n, "forallpair needs (p, q, lo, hi, body, patP, patQ)")
+		}
+		idp, ok1 := n.Args[0].(*ast.Ident)
+		idq, ok2 := n.Args[1].(*ast.Ident)
+		if !ok1 || !ok2 {
+			e.fail(n, "forallpair: the first two arguments must be identifiers")
+		}
+		vp, vq := c.Var("q$"+idp.Name, IdxSort), c.Var("q$"+idq.Name, IdxSort)
+		lo := e.x.toIdx(e.asInt(e.eval(n.Args[2])))
+		hi := e.x.toIdx(e.asInt(e.eval(n.Args[3])))
+		inner := e.bind(idp.Name, Value{T: types.Typ[types.Int], L: []*Term{vp}}).bind(idq.Name, Value{T: types.Typ[types.Int], L: []*Term{vq}})
+		body := inner.evalBool(n.Args[4])
+		rng := c.And(c.BVCmp("bvsle", lo, vp), c.BVCmp("bvslt", vp, hi), c.BVCmp("bvsle", lo, vq), c.BVCmp("bvslt", vq, hi))
+		pp, pq := inner.eval(n.Args[5]).L[0], inner.eval(n.Args[6]).L[0]
+		return c.intern(&Term{Op: "forall", Args: []*Term{c.Implies(rng, body)}, Vars: []*Term{vp, vq}, Pats: []*Term{pp, pq}, Sort: BoolSort, Name: "multi"})
+	}
 	if len(n.Args) == 4 || len(n.Args) == 5 {
 		id, ok := n.Args[0].(*ast.Ident)
 		if !ok {
